@@ -135,6 +135,35 @@ def mode_of(q, op_key, scope):
     return "wo", cfg
 
 
+def oracle_rule_history(ctx, case, res, fail):
+    """'the mode its rule selected': the rules are what the caller's UPDATE CALLS said (last applicable rule in the order the scopes
+    were first accepted), not merely what the object exports afterwards — for every operator of the model the declarative resolution of
+    the accepted update calls (fam_recipe.spec_resolve, written from the property text) equals the resolution of the exported recipe"""
+    from . import fam_recipe as fr
+    if not case.cmds or case.recipe is not None or res.get("policy") or getattr(case, "late", None):
+        return
+    adds = [c for c in case.cmds if c.get("k") == "add"]
+    if len(adds) != len(case.cmds) or any("accepted" not in c for c in adds):
+        return
+    adds_ok = [(c["regex"], c["operation"], c["alg"], c["cfg"]) for c in adds if c["accepted"]]
+    mi = pl.read(case.mb)
+    for gi in mi.subgraphs:
+        for op in gi.operators:
+            key = op_key_of(mi.operatorCodes[op.opcodeIndex].builtinCode)
+            if key is None:
+                continue
+            scope = "".join(pl.tname(gi.tensors[t]) + ";" for t in op.outputs if t != -1)
+            alg_s, cfg_s = fr.spec_resolve(adds_ok, key, scope)
+            alg_r, cfg_r = resolve(res["q"], key, scope)
+            alg_r = str(getattr(alg_r, "value", alg_r))
+            want = json.dumps(fr.plain(fr.mk_cfg(cfg_s).to_dict()), sort_keys=True) if alg_s != "no_quantize" else None
+            got = json.dumps(fr.plain(cfg_r.to_dict()), sort_keys=True) if alg_r != "no_quantize" else None
+            ctx.tag("rule_history_checked")
+            if alg_s != alg_r or want != got:
+                return fail(f"operator {key} with scope {scope!r}: the update calls select ({alg_s}, {want}), the object resolves ({alg_r}, {got})",
+                            "rule-history")
+
+
 def oracle_c03(ctx, case, res, fail):
     """every operand of every original op has the dtype its resolved mode prescribes"""
     mi, mo = pl.read(case.mb), pl.read(res["out"])
